@@ -24,7 +24,7 @@ ASSUMPTIONS = [
 ]
 GATES = ["events_checked", "mode0", "mode1", "mode2", "handler_calls_checked", "raise_resumed",
          "pos:crc", "pos:payload", "pos:straddle", "backend:buffered", "backend:pipe", "backend:makefile",
-         "backend:bytesio"]
+         "backend:bytesio", "backend:socket"]
 
 
 def make_frames(rng, n):
@@ -70,6 +70,12 @@ def run_case(ctx, frames, damage, mode, handler, backend="file"):
         stream, feeder = doubles.pipe_file(data)
     elif backend == "makefile":
         stream, feeder = doubles.makefile_stream(data)
+    elif backend == "socket":  # real-socket subclass with arbitrary segmentation (no timeouts)
+        import random as _r
+
+        rr = _r.Random(len(data))
+        stream = doubles.ScriptedSocket(data, [rr.choice((1, 2, 5, 17, 100, 700)) for _ in range(200)],
+                                        budget=4 * len(data) + 512)
     else:
         stream = io.BytesIO(data)
     with common.capture_logs("pyrtcm") as cap:
@@ -105,6 +111,8 @@ def run_case(ctx, frames, damage, mode, handler, backend="file"):
                     after_exc = False
                 events.append(("deliver", bytes(raw)))
         nlog = len(cap.records)
+    if backend == "socket":
+        stream.close()
     if feeder is not None:
         try:
             stream.close()
@@ -186,7 +194,7 @@ def run(ctx):
     common.quiet_logging()
     rng = ctx.rng
     combos = [(0, 0), (0, 1), (1, 0), (1, 1), (2, 0), (2, 1)]
-    for it in range(ctx.n(800, 5000)):
+    for it in range(ctx.n(600, 5000)):
         n = rng.randint(3, 12) if it % 4 else rng.randint(13, 40)
         frames = make_frames(rng, n)
         subsets = [[]]
@@ -200,7 +208,7 @@ def run(ctx):
             mode, handler = combos[(it + k) % 6]
             damage = {i: damage_for(rng, frames[i]) for i in sub}
             run_case(ctx, frames, damage, mode, handler,
-                     ("file", "file", "bytesio", "buffered", "file", "pipe", "file", "makefile")[k % 8])
+                     ("file", "socket", "bytesio", "buffered", "file", "pipe", "file", "makefile")[k % 8])
         # bit-position sweep on one frame
         i = rng.randrange(n)
         nb = len(frames[i]) * 8
